@@ -4,6 +4,12 @@ from . import common as C
 def run(pid, tier, replay):
     try:
         if replay:
+            import json
+            rec = json.load(open(replay))
+            rec["_path"] = replay
+            if pid == "C05" and rec.get("replay", {}).get("engine") == "net":
+                from . import net_c05
+                return net_c05.replay(rec)
             from . import simcheck
             return simcheck.replay(pid, replay)
         if pid in ("C01", "C02", "C04", "C07", "C08", "C15", "C16"):
